@@ -32,6 +32,14 @@ type c04Tx struct {
 
 func c04Gen(rng *core.Rng, tier string) *harness.Plan {
 	p := &harness.Plan{Seed: rng.Uint64(), Params: map[string]int64{}}
+	if rng.Chance(0.35) {
+		// concurrent mode (rig R3c): rounds of overlapping key reservations, see c04conc.go
+		p.Params["conc"] = 1
+		p.Params["rounds"] = int64(6 + rng.IntN(10))
+		if tier == "thorough" {
+			p.Params["rounds"] = int64(10 + rng.IntN(40))
+		}
+	}
 	p.Params["keys"] = int64(3 + rng.IntN(5))
 	p.Params["txs"] = int64(4 + rng.IntN(8))
 	n := 15 + rng.IntN(60)
@@ -102,6 +110,9 @@ func c04Exec(p *harness.Plan) *harness.Outcome {
 		t.ver = dec
 		t.hash = t.ver.PayloadHash()
 		txs = append(txs, t)
+	}
+	if p.P("conc", 0) == 1 {
+		return c04Conc(c, f, p, rng, keys, txs)
 	}
 	binding := make([]int, nK)
 	for i := range binding {
